@@ -2791,7 +2791,7 @@ class FuncParse(ValueFunc):
         except Exception:
             raise CklRuntimeError(
                 ValueString("ERROR"),
-                "Cannot parse expression " + args.getString("s"),
+                "Cannot parse expression " + args.getString("s").value,
                 pos,
             )
 
